@@ -255,6 +255,15 @@ type c06Env struct {
 	settingsSent bool   // the peer has sent its first SETTINGS frame
 	exactHits    int    // adaptive scripts: header / trailer blocks of exactly the targeted length
 
+	glue     *c06GlueWriter // the peer's writer: can keep a SETTINGS frame back so that it leaves in one segment with the next frame
+	glueWant int            // > 0: acknowledgements that must have been seen once the glued segment was handled
+	gluedOps int
+
+	lateWant bool   // closeBody under a held cc.wmu is followed by peer DATA on the closed stream (lateData)
+	lateTok  string // the pd token of that frame ("" = not sent)
+	lateW    int64  // the connection-level WINDOW_UPDATE it sets off
+	lateHits int
+
 	gate      *c06Gate // between the ClientConn and the socket: parks a writer inside a frame write
 	holding   bool     // a body writer is parked inside a DATA frame (cc.wmu held): see feedHeld
 	holdSnap  inflow
@@ -304,7 +313,8 @@ func c06NewEnv(t testing.TB, cfg c06Cfg) (*c06Env, error) {
 	// encoder does without a dynamic table altogether (a table size update to 0 opens its first
 	// header block), so repeated response fields are never sent as references
 	e.henc.SetMaxDynamicTableSize(0)
-	e.fr = xhttp2.NewFramer(e.srv, e.srv)
+	e.glue = &c06GlueWriter{w: e.srv}
+	e.fr = xhttp2.NewFramer(e.glue, e.srv)
 	e.fr.AllowIllegalReads = true
 	e.fr.AllowIllegalWrites = true
 	e.fr.SetMaxReadFrameSize(1<<24 - 1)
@@ -319,6 +329,32 @@ func c06NewEnv(t testing.TB, cfg c06Cfg) (*c06Env, error) {
 	}
 	e.cc = cc
 	return e, nil
+}
+
+// c06GlueWriter is the peer's side of the socket. While hold is set, what the framer writes is
+// kept back; the next write after hold was cleared carries it in front, in ONE Write call (one
+// TCP segment on loopback: both frames are in the client's bufio.Reader when the first one is
+// handled).
+type c06GlueWriter struct {
+	w    io.Writer
+	hold bool
+	buf  []byte
+}
+
+func (g *c06GlueWriter) Write(p []byte) (int, error) {
+	if g.hold {
+		g.buf = append(g.buf, p...)
+		return len(p), nil
+	}
+	if len(g.buf) > 0 {
+		b := append(g.buf, p...)
+		g.buf = nil
+		if _, err := g.w.Write(b); err != nil {
+			return 0, err
+		}
+		return len(p), nil
+	}
+	return g.w.Write(p)
 }
 
 func (e *c06Env) shutdown() {
@@ -611,6 +647,14 @@ func (e *c06Env) waitDone(st *c06Stream) {
 
 // afterOp: the common tail of every operation.
 func (e *c06Env) afterOp(forgot bool) {
+	if e.glueWant > 0 && !e.glue.hold && len(e.glue.buf) == 0 {
+		// a SETTINGS frame travelled in front of this operation's frame: it must be acknowledged
+		// on the strength of that segment alone - before the barrier PING below makes the client
+		// write (RFC 9113 section 6.5.3: "MUST immediately emit a SETTINGS frame with the ACK flag")
+		want := e.glueWant
+		e.glueWant = 0
+		e.collect(func() bool { return e.ackSeen >= want }, c06Wait)
+	}
 	e.collect(e.settled, c06Wait)
 	for _, st := range e.streams {
 		if !st.gotRes {
@@ -1076,6 +1120,43 @@ func (e *c06Env) peerSettings(vals []xhttp2.Setting) string {
 	}
 	e.afterOp(false)
 	return "ps:" + tok
+}
+
+// peerSettingsHeld: a (valid) SETTINGS frame that is kept back and leaves in one segment with the
+// frame of the next peer operation (releaseGlue when there is none).
+func (e *c06Env) peerSettingsHeld(vals []xhttp2.Setting) string {
+	var parts []string
+	for _, s := range vals {
+		parts = append(parts, fmt.Sprintf("%d=%d", uint16(s.ID), s.Val))
+	}
+	tok := "-"
+	if len(parts) > 0 {
+		tok = strings.Join(parts, "/")
+	}
+	e.record("<s:" + tok)
+	for _, v := range vals {
+		if v.ID == xhttp2.SettingInitialWindowSize {
+			e.woke = true
+		}
+	}
+	e.glue.hold = true
+	e.fr.WriteSettings(vals...)
+	e.glue.hold = false
+	e.settingsSent = true
+	e.pendSettings = append(e.pendSettings, vals)
+	e.glueWant = e.ackSeen + len(e.pendSettings)
+	e.gluedOps++
+	return "ps:" + tok
+}
+
+// releaseGlue: no peer frame followed - the SETTINGS frame kept back travels alone after all.
+func (e *c06Env) releaseGlue() {
+	if len(e.glue.buf) > 0 {
+		b := e.glue.buf
+		e.glue.buf = nil
+		e.srv.Write(b)
+	}
+	e.afterOp(false)
 }
 
 func (e *c06Env) peerAck() string {
